@@ -426,6 +426,6 @@ func (w *zzW) keyAndPrefixD(anyOp, deep bool) int {
 // and runs <= "depth_m" arbitrary commands over both keys.
 func (w *zzW) twoKeyState() {
 	w.base(0, zzChoice("base.a", zzNBase), "base.a", true)
-	w.base(1, []int{zzBaseEmpty, zzBaseV, zzBaseVLock}[zzChoice("base.b", 3)], "base.b", zzParam("tier", 0) > 0)
+	w.base(1, []int{zzBaseEmpty, zzBaseV, zzBaseVLock}[zzChoice("base.b", 3)], "base.b", zzParam("b_anyop", 0) > 0)
 	w.prefixN(zzParam("depth_m", 0), 0, 1)
 }
